@@ -1,8 +1,13 @@
 From Hannibal Require Import Model.Sys Inv.Mailbox.
-From Hannibal Require Chk.C03 Props.C01.
+From Hannibal Require Chk.C03 Inv.C01b Props.C01.
 Check Props.C01.C01_handler_takes_head :
   forall s a o s' x, step s (EvHBegin a o) = Acc s' -> actors s a = Some x ->
   exists q, m_queue (a_mb x) = PTask o :: q.
 Check Props.C01.C01_queued_at_most_once :
   forall tr s a x, run init tr = Acc s -> actors s a = Some x -> NoDup (qids (a_mb x)).
 Check Props.C01.C01_no_overlap : forall tr, accepts tr = true -> Chk.C03.chk_C03 tr = true.
+Check Props.C01.C01_first_in_first_handled :
+  forall tr1 tr2 s1 s2 s3 a x1 o1 o2,
+  run init tr1 = Acc s1 -> actors s1 a = Some x1 -> Inv.C01b.ahead (a_queue x1) o1 o2 ->
+  run s1 tr2 = Acc s2 -> step s2 (EvHBegin a o2) = Acc s3 ->
+  In (EvHBegin a o1) tr2 \/ Inv.C01b.is_ping s1 o1.
